@@ -22,7 +22,7 @@ ClassesOf(f) ==
     [] f = "spec"       -> {"ok", "nonstr", "missing", "nondotted", "null"}
     [] f = "deleg"      -> {"empty", "one_ok", "two_ok", "thr_gt_keys", "emptykeys", "thr_huge",
                             "not_dict", "null", "entry_not_dict", "entry_missing_thr", "entry_missing_keys", "entry_extra", "keys_not_list",
-                            "key_upper", "key_short", "key_long", "key_dup", "key_nonstr", "key_ws",
+                            "key_upper", "key_short", "key_long", "key_dup", "key_nonstr", "key_ws", "key_nonascii_digits",
                             "thr_zero", "thr_neg", "thr_frac", "thr_str", "thr_null", "thr_inf", "thr_nan", "thr_list",
                             "thr_bool", "thr_intfloat", "role_empty", "missing"}
     [] f = "exp"        -> DateClasses \cup {"missing"}
